@@ -418,13 +418,6 @@ class BfeEmitter(LoopEmitter):
                 return self.emit(recv, env, exp)
         if k == "slice":
             raise Unsupported("slice expression outside copy_from_slice / try_into().unwrap()")
-        if k == "veclit" or k == "arrayrep" or k == "arraylit":
-            pass
-        if k == "macro_vecrep":
-            v, vty, vok = self.emit(e[1], env, exp[1] if isinstance(exp, tuple) and exp[0] == "vec" else None)
-            c, cty, cok = self.emit(e[2], env, "usize")
-            self.unify(cty, "usize", "vec! length")
-            return f"(List.replicate {paren(c)} {paren(v)})", ("vec", vty), self.conj(vok, cok)
         return LoopEmitter.emit(self, e, env, exp)
 
     def emit_slice(self, e, env):
@@ -504,8 +497,6 @@ class BfeFnTranslator(FnTranslator):
             if node and node[0] == "mcall" and node[2] in sigs and sigs[node[2]].get("method") \
                     and len(node) == 4:
                 return ("call", ["<recv>", node[2]], [node[1]] + list(node[3]))
-            if node and node[0] == "macro_call":
-                return node
             return node
         stmts = map_ast(stmts, norm)
 
@@ -703,13 +694,6 @@ class BfeFnTranslator(FnTranslator):
                 em.dirty = saved
                 if em.resolve(lty) == "bfe" and st[2] not in CTX["assign_ops"]:
                     raise Unsupported(f"operator {st[2]} of BFieldElement is not translated")
-            if kind == "mcallstmt" and st[1][0] == "mcall":
-                _, recv, mname, args = st[1]
-                if mname == "push" and recv[0] == "path" and len(recv[1]) == 1 and recv[1][0] in env:
-                    vty = em.resolve(env[recv[1][0]][1])
-                    if isinstance(vty, tuple) and vty[0] == "vec" and isinstance(em.resolve(vty[1]), str) \
-                            and em.resolve(vty[1]) == "bfe":
-                        pass
         return FnTranslator.seq(self, stmts, i, env, k, ctl)
 
     def do_callstmt(self, st, stmts, i, env, k, ctl):
